@@ -5,7 +5,7 @@
    types, the optional tail with its scaling lists), the exact detection of the optional tail, and the
    accepted-input half (every accepted PPS is within the ranges and was consumed front to back). *)
 From H264 Require Import Base.Prelude Base.Bits Model.BitReader Model.Parser Model.Sps Model.Context Model.Pps Spec.SyntaxSps Spec.SyntaxPps
-     Proofs.Wp Proofs.SpsInv Proofs.PpsInv Proofs.C05_tail Proofs.PpsRoundtrip.
+     Proofs.Wp Proofs.SpsInv Proofs.PpsInv Proofs.C05_tail Proofs.PpsRoundtrip Proofs.PpsConverse.
 Local Open Scope N_scope.
 
 (* every conforming PPS, encoded and followed by rbsp trailing bits (with any number of trailing zero
@@ -46,6 +46,13 @@ Proof.
   rewrite H in Hw. exact Hw.
 Qed.
 Print Assumptions C05_consumes.
+
+(* converse: every bit string the structure parser accepts is the encoding of the structure it returns (for some
+   coded picture scaling-list deltas), followed by what it left unread *)
+Theorem C05_converse : forall c s v s', ctx_sps_ok c -> pps_body c s = OK (v, s') ->
+  exists plists, bits s = enc_pps v plists ++ bits s' /\ tail s' = tail s.
+Proof. intros c s v s' Hc H. exact (pps_body_converse c s v s' Hc H). Qed.
+Print Assumptions C05_converse.
 
 (* non-vacuity: a 4x3-macroblock High 4:4:4 SPS in the context; a PPS with an explicit slice-group map
    (type 6, 3 groups, 12 ids), the optional tail, and twelve picture scaling lists one of which is coded *)
